@@ -30,6 +30,8 @@ type vfLiveConn struct {
 	outAtClose  int
 	closed      int
 	remote      net.Addr
+	gate        chan struct{} // when set, every Write waits for a token first (a receiver that is slow to take data)
+	writing     chan struct{} // one token each time a Write arrives at the gate
 }
 
 func vfNewLiveConn() *vfLiveConn {
@@ -55,6 +57,10 @@ func (c *vfLiveConn) Read(p []byte) (int, error) {
 	return n, nil
 }
 func (c *vfLiveConn) Write(p []byte) (int, error) {
+	if c.gate != nil {
+		c.writing <- struct{}{}
+		<-c.gate
+	}
 	if c.closed > 0 {
 		return 0, net.ErrClosed
 	}
@@ -161,4 +167,56 @@ func vfH_C03_interleave() {
 	vfrt.Assert(target.writeClosed == 1 && target.outAtClose == len(up), "interleave/target-sees-end-of-stream-after-the-last-byte")
 	vfrt.Assert(client.writeClosed == 1 && client.outAtClose == head+len(down), "interleave/client-sees-end-of-stream-after-the-last-byte")
 	vfrt.Assert(client.closed >= 1 && target.closed >= 1, "interleave/both-sockets-closed-when-both-directions-are-finished")
+}
+
+
+//vf:assume C03-bigchunk: the client sends one chunk of 16386 bytes (symbolic at offsets 0, 16383, 16384, 16385, a fixed pattern elsewhere) - larger than half of the 32 KiB copy buffer - and the target is slow to take it: while that write is pending the target sends 2 symbolic bytes the other way; then the write completes. The order is enforced by the harness (gated Write), natively too
+
+//vf:harness property=C03 nopanic reach=bigchunk-crossing steps=30000000
+func vfH_C03_bigchunk() {
+	cfg := HTTPProxyConfig{}
+	cfg.Name = "fw"
+	cfg.ProxyLocalhost = AllowProxyLocalhost
+	hp := vfNewHTTPProxy(cfg)
+	client, target := vfNewLiveConn(), vfNewLiveConn()
+	hp.proxy.DialContext = func(context.Context, string, string) (net.Conn, error) { return target, nil }
+	served := make(chan struct{})
+	go func() {
+		martian.VfServeConn(hp.proxy, client)
+		close(served)
+	}()
+	client.feed <- []byte("CONNECT example.com:443 HTTP/1.1\r\nHost: example.com:443\r\n\r\n")
+	client.await(func() bool { return bytes.Contains(client.out.Bytes(), []byte("\r\n\r\n")) })
+	head := client.out.Len()
+
+	const size = 16386
+	up := make([]byte, size)
+	for i := range up {
+		up[i] = byte('a' + i%23)
+	}
+	sym := vfrt.Bytes("client-bytes", 4)
+	up[0], up[16383], up[16384], up[16385] = sym[0], sym[1], sym[2], sym[3]
+	down := vfrt.Bytes("target-bytes", 2)
+
+	target.gate, target.writing = make(chan struct{}, 4), make(chan struct{}, 4)
+	client.feed <- append([]byte{}, up...)
+	<-target.writing // the client->target copier holds the chunk in its buffer and waits for the target to take it
+	target.feed <- down
+	client.await(func() bool { return client.out.Len() >= head+len(down) || client.closed > 0 })
+	vfrt.Reach("bigchunk-crossing")
+	target.gate <- struct{}{} // now the target takes the chunk
+	target.await(func() bool { return target.out.Len() >= size || target.closed > 0 })
+	vfrt.Assert(bytes.Equal(client.out.Bytes()[head:], down), "bigchunk/target-bytes-reach-client-unchanged")
+	vfrt.Assert(target.out.Len() == size, "bigchunk/whole-chunk-delivered")
+	if target.out.Len() != size {
+		return
+	}
+	got := target.out.Bytes()
+	vfrt.Assert(got[0] == up[0] && got[16383] == up[16383] && got[16384] == up[16384] && got[16385] == up[16385], "bigchunk/client-bytes-reach-target-unchanged-while-the-other-direction-is-active")
+	vfrt.Assert(bytes.Equal(got[1:16383], up[1:16383]), "bigchunk/client-bytes-reach-target-unchanged-while-the-other-direction-is-active")
+	target.gate <- struct{}{} // in case the chunk goes out in two writes
+	close(client.feed)
+	close(target.feed)
+	target.gate <- struct{}{}
+	<-served
 }
